@@ -206,6 +206,10 @@ def make_term(name):
         return mt.CandidateRelativeTolerance(1e-4, 1e-4)
     if name == 'ncog':
         return mt.NormalizedChangeOverGeneration(1e-4, 2)
+    if name == 'collapse_at':       # a run that collapses (parameters pinned) and continues, inside one Solve
+        return mt.Or(mt.ChangeOverGeneration(1e-12, 25), mt.CollapseAt(None, tolerance=1e-2, generations=4))
+    if name == 'collapse_as':
+        return mt.Or(mt.ChangeOverGeneration(1e-12, 25), mt.CollapseAs(tolerance=1e-2, generations=4))
     raise KeyError(name)
 
 
@@ -296,6 +300,14 @@ class Lab(object):
             finally:
                 self.iter_calls.append(len(self.cost.log) - n0)
         s._Step = counted
+        self.collapse_marks = []  # len(energy_history) at each Collapse() that applied something
+        collapse = s.Collapse
+        def marked(*a, **k):
+            r = collapse(*a, **k)
+            if r:
+                self.collapse_marks.append(len(s.energy_history))
+            return r
+        s.Collapse = marked
 
     def callback(self, x):
         s = self.solver
